@@ -13,6 +13,7 @@ vars == <<shard, phase>>
 
 Shards == 16
 Thorough == IOEnv.VERIF_TIER = "thorough"
+Fam == IOEnv.VERIF_FAM            \* "base": the vocabulary below; "order": lists whose elements overlap, nest or repeat (order of the builder calls)
 
 V4(a, b, c, d) == [v |-> 4, b |-> <<a, b, c, d>>]
 V6(s) == [v |-> 6, b |-> s]
@@ -26,16 +27,17 @@ B1 == V6(<<32, 1, 13, 184, 0, 0, 0, 0, 0, 0, 0, 0, 0, 0, 0, 1>>)          \* 200
 B2 == V6(<<32, 1, 13, 184, 0, 0, 0, 0, 128, 0, 0, 0, 0, 0, 0, 1>>)        \* 2001:db8:0:0:8000::1
 B3 == V6(<<254, 128, 0, 0, 0, 0, 0, 0, 0, 0, 0, 0, 0, 0, 0, 2>>)          \* fe80::2
 B4 == V6(<<32, 1, 13, 184, 0, 0, 0, 0, 0, 0, 0, 0, 0, 0, 0, 0>>)          \* 2001:db8::
+B5 == V6(<<32, 1, 13, 184, 0, 1, 0, 0, 0, 0, 0, 0, 0, 0, 0, 1>>)          \* 2001:db8:1::1 (inside 2001:db8::/32, outside /64)
 
-Addrs == IF Thorough THEN <<A1, A2, A3, A4, A5, B1, B2, B3>> ELSE <<A1, A2, A4, B1, B3>>
-Ports == IF Thorough THEN <<0, 1, 79, 80, 81, 443, 65534, 65535>> ELSE <<0, 79, 80, 443, 65535>>
+Addrs == IF Fam = "order" THEN <<A1, A3, A4, B1, B5, B3>> ELSE IF Thorough THEN <<A1, A2, A3, A4, A5, B1, B2, B3>> ELSE <<A1, A2, A4, B1, B3>>
+Ports == IF Fam = "order" THEN <<79, 80, 8000, 8005, 9000>> ELSE IF Thorough THEN <<0, 1, 79, 80, 81, 443, 65534, 65535>> ELSE <<0, 79, 80, 443, 65535>>
 
 HO(lo, hi) == [lo |-> lo, hi |-> hi, incl |-> FALSE]    \* builder: lo..hi
 CL(lo, hi) == [lo |-> lo, hi |-> hi, incl |-> TRUE]     \* public field: (lo, hi) inclusive
 
 PF(sp, dp, sr, dr, any) == [sp |-> sp, dp |-> dp, sr |-> sr, dr |-> dr, any |-> any]
 
-PortFs == <<
+PortFsBase == <<
   PF(<<>>, <<>>, <<>>, <<>>, FALSE),                    \* configured but unconstrained
   PF(<<>>, <<80>>, <<>>, <<>>, FALSE),
   PF(<<80>>, <<>>, <<>>, <<>>, FALSE),
@@ -60,7 +62,7 @@ PortFs == <<
 >>
 
 IF_(addrs, cs, cd) == [addrs |-> addrs, cs |-> cs, cd |-> cd]
-IpFs == <<
+IpFsBase == <<
   IF_(<<A1>>, TRUE, TRUE),
   IF_(<<A1>>, TRUE, FALSE),
   IF_(<<A1>>, FALSE, TRUE),
@@ -73,7 +75,7 @@ IpFs == <<
 
 N(a, p) == [a |-> a, p |-> p]
 SF(nets, cs, cd) == [nets |-> nets, cs |-> cs, cd |-> cd]
-SubFs == <<
+SubFsBase == <<
   SF(<<N(V4(10, 0, 0, 0), 8)>>, TRUE, TRUE),
   SF(<<N(V4(10, 0, 0, 0), 24)>>, TRUE, FALSE),
   SF(<<N(V4(10, 0, 0, 0), 31)>>, FALSE, TRUE),
@@ -90,6 +92,32 @@ SubFs == <<
   SF(<<>>, TRUE, TRUE),
   SF(<<N(V4(10, 0, 0, 0), 8)>>, FALSE, FALSE)
 >>
+
+\* ---- order family: the same sets written in different orders, with nested, overlapping and repeated elements
+PortFsO == <<
+  PF(<<>>, <<>>, <<>>, <<HO(8000, 8006), HO(8000, 9001)>>, FALSE),        \* narrow range first, then a wider one with the same start
+  PF(<<>>, <<>>, <<>>, <<HO(8000, 9001), HO(8000, 8006)>>, FALSE),
+  PF(<<>>, <<80, 80, 8000>>, <<>>, <<HO(79, 81)>>, FALSE),                \* repeated port, port inside a range
+  PF(<<8005>>, <<>>, <<CL(8000, 8005), CL(8005, 9000)>>, <<>>, TRUE)      \* touching closed ranges, any-port
+>>
+IpFsO == <<
+  IF_(<<A1, A1, A3>>, TRUE, TRUE),
+  IF_(<<A3, B5, A1>>, TRUE, FALSE),
+  IF_(<<B5, B1, B5>>, FALSE, TRUE)
+>>
+SubFsO == <<
+  SF(<<N(V4(10, 0, 0, 0), 24), N(V4(10, 0, 0, 0), 8)>>, TRUE, TRUE),      \* narrow block first, wider block with the same base after it
+  SF(<<N(V4(10, 0, 0, 0), 8), N(V4(10, 0, 0, 0), 24)>>, TRUE, TRUE),
+  SF(<<N(A1, 32), N(V4(10, 0, 0, 0), 30), N(V4(10, 0, 0, 0), 8)>>, TRUE, FALSE),
+  SF(<<N(V4(10, 0, 1, 0), 24), N(V4(10, 0, 0, 0), 16)>>, FALSE, TRUE),     \* base of the first inside the second
+  SF(<<N(B4, 64), N(B4, 32)>>, TRUE, TRUE),
+  SF(<<N(B4, 32), N(B4, 64)>>, TRUE, TRUE),
+  SF(<<N(B1, 128), N(B4, 64), N(V4(10, 0, 0, 0), 24), N(B4, 32), N(V4(0, 0, 0, 0), 0)>>, TRUE, TRUE),
+  SF(<<N(V4(10, 0, 0, 0), 24), N(V4(10, 0, 0, 0), 24)>>, TRUE, TRUE)       \* exact duplicate
+>>
+PortFs == IF Fam = "order" THEN PortFsO ELSE PortFsBase
+IpFs == IF Fam = "order" THEN IpFsO ELSE IpFsBase
+SubFs == IF Fam = "order" THEN SubFsO ELSE SubFsBase
 
 NP == Len(PortFs) + 1
 NI == Len(IpFs) + 1
